@@ -2,7 +2,7 @@
 EXTENDS TlsAccept, TLC, Json
 VARIABLES row, done
 Init == /\ row \in [kind : {"tls"}, chain : {"ca", "self", "unknown"}, expired : BOOLEAN, nameOK : BOOLEAN,
-                    certs : BOOLEAN, hosts : BOOLEAN, root : BOOLEAN, rootIsLeaf : BOOLEAN, path : {"direct", "connect", "httpsproxy", "tls-proxy-bad", "tls-proxy-good"},
+                    certs : BOOLEAN, hosts : BOOLEAN, root : BOOLEAN, rootIsLeaf : BOOLEAN, path : {"direct", "connect", "httpsproxy", "tls-proxy-bad", "tls-proxy-good", "httpsproxy-plain"},
                     scope : {"request", "session", "sibling", "override", "override_certs"}, host : {"domain", "ipv6"}, pop : BOOLEAN]
         /\ (row.rootIsLeaf => (row.chain = "self" /\ ~row.root))   \* the server's own certificate added as the root
         \* IPv6-literal origins: certificates from the private CA, reached directly and through a tunnel
@@ -11,6 +11,9 @@ Init == /\ row \in [kind : {"tls"}, chain : {"ca", "self", "unknown"}, expired :
         /\ (~row.pop => (row.chain = "ca" /\ ~row.expired /\ row.path = "direct" /\ row.scope = "request" /\ row.host = "domain" /\ ~row.rootIsLeaf))
         \* TLS inside TLS (https origin behind an https proxy): flags on the request or the session
         /\ (row.path \in {"tls-proxy-bad", "tls-proxy-good"} => (row.scope \in {"request", "session"} /\ ~row.rootIsLeaf))
+        \* an https proxy that speaks no TLS: one certificate row is enough, every flag combination
+        /\ (row.path = "httpsproxy-plain" => (row.chain = "ca" /\ ~row.expired /\ row.nameOK /\ row.scope \in {"request", "session"}
+                                               /\ ~row.rootIsLeaf /\ row.pop /\ row.host = "domain"))
         /\ done = FALSE
 Next == ~done /\ done' = TRUE /\ UNCHANGED row
 Spec == Init /\ [][Next]_<<row, done>>
